@@ -26,6 +26,11 @@ ITEMS = [
     Fn(CONF, 'fn validate_euid', sig_rewrites=[(r'schema: &impl Schema', 'schema: &S', 1), (r'fn validate_euid\(', 'fn validate_euid<S: Schema>(', 1)],
        rewrites=[(r'UndeclaredAction \{\s*uid: euid\.clone\(\),\s*\}', 'vx_undeclared_action(euid.clone())', 1)],
        ensures=[('ok_iff', 'r is Ok <==> euid_ok(schema, *euid)')]),
+    Fn(CONF, 'fn validate_euids_in_subexpressions',
+       sig_rewrites=[(r"exprs: impl IntoIterator<Item = &'a crate::ast::Expr>", "exprs: VxIter<&'a Expr>", 1), (r'schema: &impl Schema', 'schema: &S', 1), (r"fn validate_euids_in_subexpressions<'a>\(", "fn validate_euids_in_subexpressions<'a, S: Schema>(", 1)],
+       rewrites=[ClosureRw(r'e', 'e: &Expr', 'std::result::Result<(), ValidateEuidError>',
+                           ensures='x is Ok <==> (match e.spec_kind() { ExprKind::Lit(Literal::EntityUID(u)) => euid_ok(schema, *u), _ => true })', rname='x', count=1)],
+       ensures=[('all_uids', 'r is Ok <==> forall|i: int| 0 <= i < exprs.items().len() ==> match (#[trigger] exprs.items()[i]).spec_kind() { ExprKind::Lit(Literal::EntityUID(u)) => euid_ok(schema, *u), _ => true }')]),
     Fn(CONF, "impl<S: Schema> EntitySchemaConformanceChecker<'_, S> > fn validate_action", wrap=W,
        rewrites=[(r'\.ok_or_else\(\|\| EntitySchemaConformanceError::undeclared_action\(uid\.clone\(\)\)\)', '.ok_or_else(|| -> (e: EntitySchemaConformanceError) ensures true { EntitySchemaConformanceError::undeclared_action(uid.clone()) })', 1)],
        ensures=[('ok_iff', 'r is Ok <==> (self.schema.sp_action(action.spec_uid()) is Some && action.spec_deep_eq(*self.schema.sp_action(action.spec_uid())->Some_0))')]),
